@@ -25,8 +25,10 @@ func init() {
 			"'for all call paths from the read-only entry points' is covered only as far as the sweeps and histories execute them; the evidence lists entry point x cache state combinations exercised",
 			"a root record whose write reported an error is not durable for this monitor",
 		},
-		NumCases: func(tier string) int { return pick(tier, 600, 20000) + pick(tier, 80, 2000) + pick(tier, 0, 1) + pick(tier, 90, 3000) },
-		Run:      runC09,
+		NumCases: func(tier string) int {
+			return pick(tier, 600, 20000) + pick(tier, 80, 2000) + pick(tier, 0, 1) + pick(tier, 90, 3000)
+		},
+		Run: runC09,
 		Floor: func(tier string, st map[string]int64) string {
 			for _, k := range []string{"file.writes", "file.truncates", "c09.sweep-calls", "c09.sweep/state=reopened", "c09.sweep/state=evicted", "c09.sweep/state=pending", "c09.sweep/state=partial", "op.SnapRevert", "op.CopyTo", "op.FlushRevert", "op.CollWrite", "c09.reentrant/nested-flushes", "c09.reentrant/nested-collection-writes"} {
 				if st[k] == 0 {
